@@ -195,7 +195,9 @@ def bounded(ctx):
     p1, p2, p3 = plasmid_text(rng), plasmid_text(rng), plasmid_text(rng)
     dirs = []
     try:
+        # (`beta` is stored under two supported extensions: still one key, yielded once, counted once)
         d1 = make_dir(ctx, {"alpha.gb": gb_text("alpha", p1), "beta.gbk": gb_text("beta", p2, "KanR"),
+                            "beta.gb": gb_text("beta", p2, "KanR"),
                             "notes.txt": "hello", "gamma.genbank": gb_text("gamma", p3), "noext": gb_text("noext", p3),
                             "sub/zzz.gb": gb_text("zzz", p3), "sub/deep/yyy.gb": gb_text("yyy", p3)})
         # (file stems need not be the identifiers written inside the files: `renamed.gb` holds the record `inner_id`)
@@ -207,7 +209,7 @@ def bounded(ctx):
         evals += check_mapping(r2, "directory(alpha.gb, delta.gb)", viol, expect_keys={"alpha", "delta"})
         distinct.update({("dir1", "alpha"), ("dir1", "beta"), ("dir2", "alpha"), ("dir2", "delta")})
         r3 = base.FilesystemRegistry(d1, Entry, extensions=("genbank", "gb"))
-        evals += check_mapping(r3, "directory(extensions=genbank,gb)", viol, expect_keys={"alpha", "gamma"})
+        evals += check_mapping(r3, "directory(extensions=genbank,gb)", viol, expect_keys={"alpha", "beta", "gamma"})
         for order, first in (((r1, r2), p1), ((r2, r1), p3)):
             comb = base.CombinedRegistry()
             for r in order:
